@@ -1116,6 +1116,13 @@ func (check typecheck) convertUntyped(n *node, typ *itype) error {
 	ntyp, ttyp := n.typ.TypeOf(), typ.TypeOf()
 	if typ.untyped {
 		// Both n and target are untyped.
+		if ntyp == nil || ttyp == nil {
+			// The untyped nil has no reflect type, and is convertible only to itself.
+			if ntyp != ttyp {
+				return convErr
+			}
+			return nil
+		}
 		nkind, tkind := ntyp.Kind(), ttyp.Kind()
 		if isNumber(ntyp) && isNumber(ttyp) {
 			if nkind <= tkind {
